@@ -82,11 +82,14 @@ Theorem C01_bind_arg_unbound_refuted :
 Proof. exact refuted_e. Qed.
 Print Assumptions C01_bind_arg_unbound_refuted.
 
-(* C01-group-by-without-aggregate: on three solutions in two groups, finalize_select returns three rows, the algebra two *)
-Theorem C01_group_by_without_aggregate_refuted :
-  List.length (finalize_select wsel_gb wrows_gb) = 3%nat /\ List.length (render (columns wsel_gb) (modifiers wsel_gb wrows_gb)) = 2%nat.
-Proof. exact refuted_gb. Qed.
-Print Assumptions C01_group_by_without_aggregate_refuted.
+(* Regression for the repaired finding C01-group-by-without-aggregate (fix bc03712): a top-level GROUP BY without an
+   aggregate yields one row per group, the algebra's answer; the pre-fix behaviour (no grouping) yields three rows. *)
+Theorem C01_group_by_regression :
+  finalize_select wsel_gb wrows_gb = render (columns wsel_gb) (modifiers wsel_gb wrows_gb) /\
+  List.length (finalize_select wsel_gb wrows_gb) = 2%nat /\
+  List.length (eaggregate false (Some [PVar 0%N]) [0%N] wrows_gb) = 3%nat.
+Proof. exact group_by_regression. Qed.
+Print Assumptions C01_group_by_regression.
 
 (* ... and each witness violates a hypothesis of C01_pattern *)
 Theorem C01_witnesses_outside :
